@@ -255,3 +255,7 @@ def run(ctx):
     check_reflexive(ctx, 'R01.10')
     from ..trim import check_trims
     check_trims(ctx, 'R01.11', ['nbdime.diffing.'])
+
+
+from .extra import with_extra  # noqa: E402
+run = with_extra('C01', run)
